@@ -1,6 +1,7 @@
 package props
 
 import (
+	"bytes"
 	"context"
 	"errors"
 	"fmt"
@@ -168,6 +169,11 @@ func (s *scriptedRT) RoundTrip(req *http.Request) (*http.Response, error) {
 	}, nil
 }
 
+// errReader returns its error once asked (io.EOF lets a MultiReader move on).
+type errReader struct{ err error }
+
+func (e errReader) Read([]byte) (int, error) { return 0, e.err }
+
 var runConnCalls int
 
 // runConn drives a Connection (single attempt, no retries) over the reader.
@@ -187,6 +193,23 @@ func runConn(rd io.Reader, buf []byte, maxSize int) (obs readObs) {
 	cl := &sse.Client{
 		HTTPClient: &http.Client{Transport: rt},
 		Backoff:    sse.Backoff{MaxRetries: -1},
+	}
+	if runConnCalls%3 == 2 {
+		// a validator that sniffs the beginning of the stream and puts it back (the usual
+		// MultiReader idiom): the connection reads the body the validator leaves in the response
+		cl.ResponseValidator = func(res *http.Response) error {
+			buf := make([]byte, 5)
+			n, err := res.Body.Read(buf)
+			rest := []io.Reader{bytes.NewReader(buf[:n])}
+			if err != nil {
+				rest = append(rest, errReader{err})
+			}
+			res.Body = struct {
+				io.Reader
+				io.Closer
+			}{io.MultiReader(append(rest, res.Body)...), res.Body}
+			return nil
+		}
 	}
 	req, _ := http.NewRequestWithContext(context.Background(), http.MethodGet, "http://verif.invalid/stream", http.NoBody)
 	conn := cl.NewConnection(req)
